@@ -4,6 +4,8 @@
 package resource_share
 
 import (
+	"math"
+
 	commonconstants "github.com/NVIDIA/KAI-scheduler/pkg/common/constants"
 	"github.com/NVIDIA/KAI-scheduler/pkg/scheduler/api/resource_info"
 )
@@ -87,11 +89,19 @@ func compareQuantities(quantity, other float64) int {
 		return -1
 	}
 
-	if quantity > other {
+	// Quantities are float64 sums of pod requests (GPU fractions among them) accumulated in no particular order:
+	// 1.9000000000000001 - 0.9 is 1.0000000000000002. Two quantities that differ by less than the rounding error of
+	// such sums are the same quantity - otherwise a queue that is exactly at its deserved quota counts as above it
+	// and loses what it deserves to a reclaimer.
+	tolerance := quantityTolerance * math.Max(1, math.Max(math.Abs(quantity), math.Abs(other)))
+	if quantity-other > tolerance {
 		return 1
 	}
-	if quantity < other {
+	if other-quantity > tolerance {
 		return -1
 	}
 	return 0
 }
+
+// quantityTolerance is the relative error below which two summed quantities are considered equal.
+const quantityTolerance = 1e-9
